@@ -128,6 +128,16 @@ var shallowScenarios = map[string]bool{}
 // set-up and a marked exploration phase.
 func raceScenarios() []raceScenario {
 	var out []raceScenario
+	// the sender stuck with a small chunk while the ring fills behind it and a larger message
+	// waits for room (bodies shared with C17): the producer must not write into bytes the
+	// sender is still putting on the wire
+	for _, sc := range smallChunkCases(false) {
+		if sc.small != 100 || sc.fill != (16384-(sc.small+20))/1012 || len(sc.pre) == 1 || len(sc.pre) == 3 {
+			continue // two of the ring positions: ring start, second lap
+		}
+		shallowScenarios["outgoing ring: "+sc.name] = true
+		out = append(out, raceScenario{"outgoing ring: " + sc.name, smallChunkBody(sc.pre, sc.small, sc.fill, sc.bigMsg), false})
+	}
 	// (i) connect || subscribe || publish || disconnect on three connections plus in-process calls
 	out = append(out, raceScenario{"connect-subscribe-publish-disconnect + in-process", func() {
 		t := newTD()
@@ -658,16 +668,6 @@ func raceScenarios() []raceScenario {
 		})
 		vsched.Quiesce()
 	}, true})
-	// the sender stuck with a small chunk while the ring fills behind it and a larger message
-	// waits for room (bodies shared with C17): the producer must not write into bytes the
-	// sender is still putting on the wire
-	for _, sc := range smallChunkCases(false) {
-		if sc.small != 100 || sc.fill != (16384-(sc.small+20))/1012 || len(sc.pre) == 1 || len(sc.pre) == 3 {
-			continue // two of the ring positions: ring start, second lap
-		}
-		shallowScenarios["outgoing ring: "+sc.name] = true
-		out = append(out, raceScenario{"outgoing ring: " + sc.name, smallChunkBody(sc.pre, sc.small, sc.fill, sc.bigMsg), false})
-	}
 	return out
 }
 
